@@ -148,6 +148,10 @@ IN_NEW = ('                netconfig = self.new_netconfig()\n'
           '                netconfig.from_interface(interface)\n')
 IN_NEW_ADD = ('                netconfig.add_interface(interface)\n'
               '                self.netconfigs[netconfig.net_ip] = netconfig\n')
+INIT_LOOP = '        for vm_name in params.objects("vms"):\n'
+INIT_NODE = '            self.nodes[vm_name] = self.new_node(vm)\n'
+INIT_CALL = '            self.integrate_node(self.nodes[vm_name])\n'
+INIT_LOG = '        logging.debug("Constructed network configuration:\\n%s", self)\n'
 IN_OUTER = '        for interface in node.interfaces.values():\n'
 
 MUTANTS.update({
@@ -232,6 +236,18 @@ MUTANTS.update({
                           "integrate_node: registered under the interface address", W),
     "in-reversed": ([(IN_LOOP, IN_LOOP.replace('self.netconfigs.values()', 'reversed(list(self.netconfigs.values()))'))],
                     "refused", "integrate_node: the LAST registered netconfig that takes the interface", W),
+    # ---- __init__ (init_matches_source)
+    "init-integrate-twice": ([(INIT_CALL, INIT_CALL + INIT_CALL)], "refused",
+                             "__init__: integrate_node twice per vm", W),
+    "init-no-integrate": ([(INIT_CALL, '')], "refused", "__init__: the vm nodes are not integrated", W),
+    "init-reversed": ([(INIT_LOOP, '        for vm_name in reversed(params.objects("vms")):\n')], "refused",
+                      "__init__: the vms are integrated in reverse order", W),
+    "init-reset-registry": ([(INIT_LOOP, INIT_LOOP + '            self.netconfigs = {}\n')], "refused",
+                            "__init__: the registry is emptied for every vm", W),
+    "init-node-after": ([(INIT_NODE + INIT_CALL, INIT_CALL + INIT_NODE)], "refused",
+                        "__init__: the node is registered after its integration (KeyError in Python)", W),
+    "init-integrate-behind-loop": ([(INIT_CALL, ''), (INIT_LOG, '        self.integrate_node(self.nodes[vm_name])\n' + INIT_LOG)],
+                                   "refused", "__init__: only the last vm is integrated", W),
     "in-found-no-add": ([(IN_BREAK, '                    pass\n                    break\n')], "refused",
                         "integrate_node: the interface is not added to the netconfig that takes it", W),
 })
